@@ -38,7 +38,13 @@ def _has_quant(t):
 def refuted(pc, c):
     if c.op == 'const':
         return not c.val
-    facts = [f for f in pc if not _has_quant(f)]
+    flat = []
+    for f in pc:
+        if f.op == 'and':
+            flat.extend(f.args)       # keep the quantifier-free conjuncts of a mixed conjunction
+        else:
+            flat.append(f)
+    facts = [f for f in flat if not _has_quant(f)]
     if _has_quant(c):
         return False
     key = (hash(tuple(facts)), len(facts), c)
